@@ -1,5 +1,5 @@
 """C13 / timestamps given as date-times: the real `TOTP.normalize_time` (passlib/totp.py) and the CPython code it runs
-(`datetime.utctimetuple`, `calendar.timegm`, `date.toordinal`, `date.fromordinal`, `int(float)`) against the compiled Lean
+(`datetime.utctimetuple`, `calendar.timegm`, `date.toordinal`, `date.fromordinal`, `math.floor(float)`, `int(clock)` for None) against the compiled Lean
 model `Model.TotpTime` (suite `ttime` of modeldrv).
 
 Families
@@ -376,7 +376,7 @@ def model_suite(ctx, s_m):
         tag = "nan-inf" if x != x or abs(x) == float("inf") else ("negative" if x < 0 else "non-negative")
         s_m.add(f"ttime norm float {fl(x)}", lambda x=x: str(TOTP.normalize_time(x)), "norm:float-" + tag)
     # None: the clock is a parameter of the model; the real class gets a subclass with a fixed clock
-    clocks = [0.0, 1.5, 1709251199.999999, 2.0**40, 17, 0, 2**40] + [rng.randrange(0, 1 << 33) + rng.random() for _ in range(200)]
+    clocks = [0.0, 1.5, -0.5, -1.5, -3, 1709251199.999999, 2.0**40, 17, 0, 2**40] + [rng.randrange(0, 1 << 33) + rng.random() for _ in range(200)]
     for c in clocks:
         sub = type("T", (TOTP,), {"now": staticmethod(lambda c=c: c)})
         w = fl(float(c)) if isinstance(c, float) else f"{c}/1"
@@ -402,7 +402,7 @@ def model_suite(ctx, s_m):
             val = aware_of_epoch(ts, rng.randrange(10**6), rand_offset(rng)) or naive_of_epoch(ts)
             w = None
         elif kind == 3:
-            val = ts + rng.choice([0.0, 0.5, 0.999999, -0.5])
+            val = rng.choice([ts, ts, ts, 0]) + rng.choice([0.0, 0.5, 0.999999, -0.5])
             w = "float " + fl(val)
         else:
             val, w = ts, f"int {ts}"
